@@ -15,6 +15,7 @@ import os
 import re
 
 from vlib import read_jsonl, canon_hash
+from chunk_eval import coq_eval_chunks
 
 CLOSED, OPEN, HALF = 0, 1, 2
 SN = ["closed", "open", "half-open"]
@@ -277,23 +278,20 @@ def run(ctx):
         ctx.tie_broken("C47/Model.v does not compile", mout)
     elif outs:
         good = [(c, o) for c, o in zip(cases, outs) if o.get("steps")]
-        rc2, o2 = ctx.coq_eval("cases_C47", COQ_TMPL % coq_cases([c for c, _ in good], [o for _, o in good]))
-        flat = " ".join(o2.split())
-        m_ = re.search(r"= \((\d+)%nat, (\d+)%nat, (\[.*?\])\)", flat)
-        if rc2 != 0 or not m_:
+        okc, _, mism, first, o2 = coq_eval_chunks(ctx, "cases_C47", good, lambda ch: COQ_TMPL % coq_cases([c for c, _ in ch], [o for _, o in ch]))
+        if not okc:
+            mism = None
             ctx.tie_broken("model-vs-implementation (cases.v did not evaluate)", o2)
-        else:
-            mism = int(m_.group(2))
-            if mism and n_viol == 0:
-                det = []
-                for cid, idx in re.findall(r"\((\d+)%nat, (\d+)%nat\)", m_.group(3))[:3]:
-                    c, o = cases[int(cid)], outs[int(cid)]
-                    det.append({"config": {k: v for k, v in c.items() if k not in ("intents", "profile", "id")}, "first_diverging_event": int(idx),
-                                "events": [{k: s[k] for k in ("kind", "now", "call", "allowed", "tok", "outcome", "pre", "state")} for s in o["steps"][:int(idx) + 1]],
-                                "implementation_obs": o["steps"][int(idx)]["obs"]})
-                ctx.tie_broken("breaker state after every event vs C47/Model.v", {"mismatching_histories": mism, "first": det})
-            elif mism:
-                ctx.notes.append("model and implementation also disagree on %d histories (the oracle already reported a concrete failing history)" % mism)
+        elif mism and n_viol == 0:
+            det = []
+            for cid, idx in first[:3]:
+                c, o = cases[cid], outs[cid]
+                det.append({"config": {k: v for k, v in c.items() if k not in ("intents", "profile", "id")}, "first_diverging_event": idx,
+                            "events": [{k: s[k] for k in ("kind", "now", "call", "allowed", "tok", "outcome", "pre", "state")} for s in o["steps"][:idx + 1]],
+                            "implementation_obs": o["steps"][idx]["obs"]})
+            ctx.tie_broken("breaker state after every event vs C47/Model.v", {"mismatching_histories": mism, "first": det})
+        elif mism:
+            ctx.notes.append("model and implementation also disagree on %d histories (the oracle already reported a concrete failing history)" % mism)
 
     # ---- concurrent probe bursts, real goroutines
     rc3, out3 = ctx.go_test("breaker", "^TestVerifC47Burst", ["zz_verif_C47_test.go"], race=ctx.thorough,
